@@ -44,7 +44,10 @@ def parseRole0 (s : String) : Option (Role × Nat) :=
 
 /-- a trailing `!` = the pruning policy raised during this writer's commit (code + 10) -/
 def parseRole (s : String) : Option (Role × Nat) :=
-  if s.endsWith "!" then (parseRole0 ((s.dropEnd 1).toString)).map fun (r, k) => (r, k + 10) else parseRole0 s
+  -- `rdi<k>` = reader(id=k) that found the version; `rdx` = reader(id=..)/reader(serial=..) that raised KeyError
+  if s = "rdx" then some (.reader, 99)
+  else if s.startsWith "rdi" then ((s.drop 3).toString.toNat?).map fun k => (.reader, 100 + k)
+  else if s.endsWith "!" then (parseRole0 ((s.dropEnd 1).toString)).map fun (r, k) => (r, k + 10) else parseRole0 s
 
 def mkCfg (rs : List (Role × Nat)) : Cfg :=
   { role := fun t => ((rs[t]?).map (·.1)).getD .reader
@@ -54,7 +57,10 @@ def mkCfg (rs : List (Role × Nat)) : Cfg :=
       | some 3 => c ++ [t]
       | _ => c
     repl := fun t => (rs[t]?).map (·.2 % 10) == some 3
-    pruneFails := fun t => ((rs[t]?).map (fun r => decide (r.2 ≥ 10))).getD false }
+    pruneFails := fun t => ((rs[t]?).map (fun r => decide (r.2 ≥ 10))).getD false
+    pick := fun t => match (rs[t]?).map (·.2) with
+      | some k => if k = 99 then .missing else if k ≥ 100 then .byId (k - 100) else .latest
+      | none => .latest }
 
 def parseLabel (s : String) : Option WLabel :=
   match splitOnChar s '.' with
